@@ -234,6 +234,20 @@ def scripted_runs(start):
            {"ev": "consume", "o": 2, "n": 1}, {"ev": "consume", "o": 2, "n": 1}, {"ev": "read", "o": 2, "n": 1000},
            {"ev": "drop", "o": 2}]
     run(ops)
+    # an anchored slice of the object's own arena (its chunk is then held by a zero-count back anchor only), followed by a
+    # copy that does not fit in what is left of that chunk but would fit in the chunk
+    for first, big in ((300, 4000), (100, 3997), (2000, 2100)):
+        ops = [{"ev": "new", "o": 1}, {"ev": "push_anchored", "o": 1, "d": [0, 0, first]},
+               {"ev": "push", "o": 1, "m": "copy", "d": [0, first % 251, big]}, {"ev": "read", "o": 1, "n": 10 ** 6}, {"ev": "drop", "o": 1}]
+        run(ops)
+    ops = [{"ev": "new", "o": 1}, {"ev": "push", "o": 1, "m": "copy", "d": [0, 0, 10]}, {"ev": "hold", "o": 1, "h": 1, "d": [0, 10, 300]},
+           {"ev": "held_op", "h": 1, "what": "push", "o": 1}, {"ev": "push", "o": 1, "m": "copy", "d": [0, 59, 3900]},
+           {"ev": "consume", "o": 1, "n": 1}, {"ev": "read", "o": 1, "n": 10 ** 6}, {"ev": "drop", "o": 1}]
+    run(ops)
+    ops = [{"ev": "new", "o": 1}, {"ev": "ensure", "o": 1, "n": 70000}, {"ev": "push_anchored", "o": 1, "d": [0, 0, 1000]},
+           {"ev": "push", "o": 1, "m": "copy", "d": [0, 247, 130500]}, {"ev": "advance", "o": 1, "n": 500},
+           {"ev": "read", "o": 1, "n": 10 ** 6}, {"ev": "drop", "o": 1}]
+    run(ops)
     # take when the very first slice is a pending placeholder
     ops = [{"ev": "new", "o": 1}, {"ev": "register", "o": 1, "n": 2, "id": 1}, {"ev": "push", "o": 1, "m": "copy", "d": [0, 2, 50]},
            {"ev": "take", "o": 1, "to": 2}, {"ev": "push", "o": 1, "m": "copy", "d": [0, 7, 3]},
